@@ -380,7 +380,7 @@ PLAN = {
         level='model_checking', engine='verus+kani',
         verus=[('v_src', BOTH)],
         twins=SRC_TWINS,
-        kani=[KSRC_BOUNDARY] + klex_suite('K-lex str vs byte mode', ('modes',), ['U1', 'U2', 'M3'],
+        kani=[KSRC_BOUNDARY] + klex_suite('K-lex str vs byte mode', ('modes',), ['U1', 'U2', 'M3', 'M4'],
                         covers=['modes: token', 'modes: error'], quick_per_def=8,
                         bounded='relational: U1/U2 in str mode vs utf8 = false twins over valid UTF-8 contexts with symbolic bytes'),
         technique='Verus proof that byte sources never round (find_boundary identity, is_boundary = index <= len); relational bounded model checking (Kani) of str/bytes twins',
